@@ -1,5 +1,5 @@
 HARNESS = "c06"
-LEVEL = "translation_validation"
+LEVEL = "proof"
 """C06 case generator: real root counting and isolation.  Every random choice comes from the one `rng`.
 
 case:  c06 <poly c0,..,cn> <k> { lo_num lo_den lo_open hi_num hi_den hi_open }*k [nosturm]
